@@ -127,6 +127,13 @@ func cmdCheck(args []string) {
 	if *tier == "" {
 		*tier = os.Getenv("VERIF_TIER")
 	}
+	if v := os.Getenv("VX_CROSS"); v != "" {
+		crossEvery, _ = strconv.Atoi(v)
+	} else if *tier == "thorough" {
+		crossEvery = 5
+	} else {
+		crossEvery = 50
+	}
 	if *tier != "thorough" {
 		*tier = "quick"
 	}
@@ -315,6 +322,7 @@ func cmdCheck(args []string) {
 		"harnesses":                     perHarness,
 		"samples":                       samples,
 		"solver":                        map[string]interface{}{"primary": primarySolver, "fallback": []string{"z3", "z3-new"}, "queries": gStats.Queries, "sat": gStats.Sat, "unsat": gStats.Unsat, "unknown": gStats.Unknown, "time_s": float64(gStats.TimeNanos) / 1e9},
+		"cross_solver":                  map[string]interface{}{"solver": crossSolver, "every_nth_unsat_obligation": crossEvery, "rechecked": gCross.Checked, "agree": gCross.Agree, "undecided_within_15s": gCross.Undecided, "disagree": gCross.Disagree},
 		"load_s":                        loadS,
 		"explanation":                   ps.Explanation,
 		"exhaustive":                    false,
